@@ -77,6 +77,7 @@ type propCheck struct {
 	Bounded   []string
 	Unclaimed map[string]string // obligation name -> reason (committed list of sites that are not claimed)
 	witnessCache map[string]witnessOutcome
+	cmdReplay *replayResult
 	replayCache map[string]replayResult
 	replays   map[*Obligation]replayResult
 	models    map[*Obligation]string
